@@ -376,7 +376,7 @@ func treeLeaves(small bool) []*node {
 		return []*node{nNull(), nInt("17"), nReal("-.5"), nStr([]byte("a(\\)\r\n\x80"), ""), nName([]byte("A #/"), ""), nRef(1, 0)}
 	}
 	return []*node{nNull(), nBool(true), nBool(false), nInt("17"), nInt("-1"), nReal("-.5"), nReal("4."),
-		nStr([]byte("a(\\)\r\n\x80"), ""), nStr([]byte(")\x00" + "1\xf0"), ""), nStr(nil, ""),
+		nStr([]byte("a(\\)\r\n\x80"), ""), nStr([]byte(")\x00"+"1\xf0"), ""), nStr(nil, ""),
 		nName([]byte("A #/"), ""), nName([]byte("B"), ""), nRef(1, 0)}
 }
 
